@@ -22,7 +22,7 @@ type c14Size struct {
 
 var c14SizeNs = []int{0, 1, 2, 7, 8, 9, 15, 16, 17, 19, 20, 21, 31, 32, 33, 49, 50, 51, 63, 64, 65, 99, 100, 101, 127, 128, 129, 255, 256, 257, 511, 512, 513, 1000}
 
-const c14SizeFamilies = 23
+const c14SizeFamilies = 24
 
 func rep(s string, n int, sep string) string {
 	if n <= 0 {
@@ -228,6 +228,24 @@ func c14SizeCase(f, v, n int) (tpls map[string]string, extra map[string]interfac
 		default:
 			want = "9"
 		}
+	case 23: // the magnitude of a formatted number: 1 … 15 digits, as a literal and from the context
+		d := n%15 + 1
+		digits := "123456789012345"[:d]
+		grouped := func(sep string) string {
+			out := ""
+			for i, c := range digits {
+				if i > 0 && (d-i)%3 == 0 {
+					out += sep
+				}
+				out += string(c)
+			}
+			return out
+		}
+		iv, _ := strconv.ParseInt(digits, 10, 64)
+		extra["bigv"] = iv
+		extra["bigf"] = float64(iv) + 0.5
+		tpls["t"] = "{{ " + digits + "|number_format(2, '.', ',') }}|{{ bigv|number_format(0, '.', ' ') }}|{{ bigf|number_format(1, ',', '.') }}|{{ bigv }}|{{ bigv + 1 }}"
+		want = grouped(",") + ".00|" + grouped(" ") + "|" + grouped(".") + ",5|" + digits + "|" + strconv.FormatInt(iv+1, 10)
 	case 18: // long number literals and long comments inside expressions' neighbourhood
 		tpls["t"] = "{{ 2." + strings.Repeat("0", n) + "0 > 1 ? 'g' : 'l' }}{# " + strings.Repeat("c", n) + " #}{{ 'q' }}"
 		want = "gq"
